@@ -950,7 +950,9 @@ unsigned adfGetHashValue ( const uint8_t * const name,
     unsigned int i;
     uint8_t upper;
 
-    len = hash = (uint32_t) strlen ( (const char * const) name );
+    /* names are stored (and compared) truncated to MAXNAMELEN: hash what is stored */
+    len = hash = min ( (uint32_t) strlen ( (const char * const) name ),
+                       (uint32_t) MAXNAMELEN );
     for(i=0; i<len; i++) {
         if (intl)
             upper = adfIntlToUpper(name[i]);
